@@ -210,7 +210,10 @@ def check_property_file(pid):
     for blk in re.split(r'\n(?=Axioms:|Closed under)', out):
         if blk.startswith('Axioms:'):
             for m in re.finditer(r'^([A-Za-z_][\w.\']*)(?= :|\n[ \t]+:)', blk[len('Axioms:'):], re.M):
-                axioms.add(m.group(1))
+                # fully qualified names only: the output of a following one-line `Check name : stmt` is not an axiom
+                # (an axiom declared in the file itself would be caught by the forbidden-construct scan)
+                if '.' in m.group(1) and m.group(1) not in theorems:
+                    axioms.add(m.group(1))
     allow = axioms_allow()
     bad = [a for a in sorted(axioms) if not any(a == x or a.endswith('.' + x) or a.split('.')[-1] == x for x in allow)]
     res['axioms'] = sorted(axioms)
